@@ -3,6 +3,7 @@ package main
 // Built-in models of a few external functions, and facts about immutable globals.
 
 import (
+	"fmt"
 	"go/types"
 	"strings"
 
@@ -140,6 +141,9 @@ func (e *Engine) globalFacts(st *State, g *ssa.Global, v Val) {
 		case KPtr, KMap, KSlice:
 			st.assume("(> " + v.T + " 0)")
 		}
+		if mm, ok := x.(*ssa.MakeMap); ok && v.K == KMap {
+			e.mapLiteralFacts(st, g, mm, v)
+		}
 	case *ssa.MakeInterface:
 		if v.K == KIface {
 			st.assume(eq(v.X[0], e.P.reg.tagOf(x.X.Type())))
@@ -230,4 +234,111 @@ func (P *Program) globalInit(g *ssa.Global) ssa.Value {
 		return found
 	}
 	return nil
+}
+
+// mapLiteralFacts: a package-level map literal that is only ever read (every use of the global is a
+// load whose value flows only into lookups, range loops and len) keeps the entries written by the
+// package initialiser: every present key maps to one of the constant values of the literal.
+func (e *Engine) mapLiteralFacts(st *State, g *ssa.Global, mm *ssa.MakeMap, v Val) {
+	mt, ok := mm.Type().Underlying().(*types.Map)
+	if !ok || len(leaves(mt.Elem())) != 1 || !e.P.readOnlyMapGlobal(g) {
+		return
+	}
+	seen := map[string]bool{}
+	var vals []string
+	for _, ref := range *mm.Referrers() {
+		mu, ok := ref.(*ssa.MapUpdate)
+		if !ok {
+			continue
+		}
+		c, ok := mu.Value.(*ssa.Const)
+		if !ok || mu.Map != ssa.Value(mm) {
+			return
+		}
+		cv := e.constVal(st, c)
+		if len(cv.comps()) != 1 {
+			return
+		}
+		if !seen[cv.T] {
+			seen[cv.T] = true
+			vals = append(vals, cv.T)
+		}
+	}
+	if len(vals) == 0 || len(vals) > 400 {
+		return
+	}
+	sortStrings(vals)
+	_, vk, ks := e.mapKeys(mt)
+	e.nfresh++
+	k := sym(fmt.Sprintf("q.mk!%d", e.nfresh))
+	has := e.mapHas(st, mt, v.T, k)
+	varr := e.heapGet(st, vk+":0", "(Array Int (Array "+ks+" "+leaves(mt.Elem())[0].Sort+"))")
+	val := sel(sel(varr, v.T), k)
+	var alts []string
+	for _, c := range vals {
+		alts = append(alts, eq(val, c))
+	}
+	e.usedExterns["package-level map literal "+g.Name()+" is read-only: its values are the constants of the literal"] = true
+	st.assume("(forall ((" + k + " " + ks + ")) (=> " + has + " " + or(alts...) + "))")
+}
+
+// readOnlyMapGlobal: every instruction that mentions the global outside the package initialiser
+// loads it, and the loaded map value is used only by lookups, range iteration and len.
+func (P *Program) readOnlyMapGlobal(g *ssa.Global) bool {
+	P.mu.Lock()
+	if P.roMaps == nil {
+		P.roMaps = map[*ssa.Global]bool{}
+	}
+	if v, ok := P.roMaps[g]; ok {
+		P.mu.Unlock()
+		return v
+	}
+	P.mu.Unlock()
+	ok := true
+	for fn := range P.allFuncs {
+		if fn.Blocks == nil || !ok {
+			continue
+		}
+		isInit := fn.Pkg == g.Pkg && fn.Name() == "init"
+		for _, b := range fn.Blocks {
+			for _, ins := range b.Instrs {
+				var ops []*ssa.Value
+				for _, op := range ins.Operands(ops) {
+					if op == nil || *op != ssa.Value(g) {
+						continue
+					}
+					if isInit {
+						if _, isStore := ins.(*ssa.Store); isStore {
+							continue
+						}
+					}
+					ld, isLoad := ins.(*ssa.UnOp)
+					if !isLoad {
+						ok = false
+						continue
+					}
+					for _, r := range *ld.Referrers() {
+						switch u := r.(type) {
+						case *ssa.Lookup:
+							if u.X != ssa.Value(ld) {
+								ok = false
+							}
+						case *ssa.Range:
+						case *ssa.DebugRef:
+						case *ssa.Call:
+							if bi, isB := u.Call.Value.(*ssa.Builtin); !isB || bi.Name() != "len" {
+								ok = false
+							}
+						default:
+							ok = false
+						}
+					}
+				}
+			}
+		}
+	}
+	P.mu.Lock()
+	P.roMaps[g] = ok
+	P.mu.Unlock()
+	return ok
 }
